@@ -98,6 +98,16 @@ func (s *Service) CreatePin(ctx context.Context, ref boson.Address, traverse boo
 
 // DeletePin implements Interface.DeletePin method.
 func (s *Service) DeletePin(ctx context.Context, ref boson.Address) error {
+	// unpinning is idempotent: a reference that is not pinned must not lower the
+	// pin counters its chunks hold on behalf of other pins.
+	has, err := s.HasPin(ref)
+	if err != nil {
+		return err
+	}
+	if !has {
+		return nil
+	}
+
 	var iterErr error
 	ctx = sctx.SetRootHash(ctx, ref)
 	// iterFn is a unpinning iterator function over the leaves of the root.
